@@ -65,7 +65,7 @@ def inject(path=None):
 def shim_dir():
     """Directory holding a sitecustomize.py that performs inject() in subprocesses (CLI runs)."""
     so = build()
-    d = os.path.join(os.path.dirname(so), "shim")
+    d = os.path.join(os.path.dirname(so), "shim-" + hashlib.sha256(REPO.encode()).hexdigest()[:10])
     os.makedirs(d, exist_ok=True)
     sc = os.path.join(d, "sitecustomize.py")
     body = (
